@@ -43,6 +43,7 @@ def _case(draw, unit):
             'mode': draw(st.sampled_from(['default', 'periodization', 'periodic'])),
             'dtype': draw(st.sampled_from(['f64', 'f64', 'f64', 'f32'])),
             'shift': [draw(st.integers(-70, 70)), draw(st.integers(-70, 70))],
+            'reused': draw(st.integers(0, 3)) == 0,
             'rx': draw(core.recipe_strategy()), 'k': draw(st.integers(0, 10**6))}
 
 
@@ -67,11 +68,19 @@ def run_case(case):
             'smaller_than_dilated_filter' if min(H, W) < L * 2 ** (J - 1) else None,
             'nonsquare' if H != W else None, 'L>=20' if L >= 20 else None)
     r.nontrivial = L >= 4 or J >= 2
-    with dwtu.default_dtype(tdt):
+    def make(wname):
         if case['mode'] == 'default':
-            mod = SWTForward(J=J, wave=w)
+            return SWTForward(J=J, wave=wname)
+        return SWTForward(J=J, wave=wname, mode=case['mode'])
+    with dwtu.default_dtype(tdt):
+        sib = dwtu.sibling(w) if case.get('reused') else None
+        if sib is None:
+            mod = make(w)
         else:
-            mod = SWTForward(J=J, wave=w, mode=case['mode'])
+            # the module had a previous life with another wavelet of the same length
+            r.label('reused_module')
+            mod = dwtu.reused_module(lambda: make(w), lambda: make(sib),
+                                     lambda m: m(torch.ones(1, case['C'], H, W, dtype=tdt)))
 
     def flat(out):
         return np.concatenate([dwtu.to_np(t).reshape(t.shape[0], -1) for t in out], axis=1)
